@@ -2,6 +2,7 @@ package ops
 
 import (
 	"fmt"
+	"github.com/ethereum/go-ethereum/common"
 	"math/big"
 	"math/rand"
 	"sort"
@@ -340,6 +341,8 @@ func (w *World) RunLedger(o LedgerOpts) {
 		wParam = 20
 	}
 	var extraAVS []string
+	avsSpecs := map[string]AVSSpec{}
+	avsEmptied := map[string]bool{}
 	if o.Profile == "power" {
 		wPrice, wAvsOpt = 45, 45
 		ids := []string{"minute", "hour", "minute"}
@@ -355,6 +358,7 @@ func (w *World) RunLedger(o LedgerOpts) {
 				EpochID: ids[r.Intn(len(ids))], Unbonding: uint64(1 + r.Intn(3)), TaskAddr: sim.NewAccount(fmt.Sprintf("task%d", i)).Eth}
 			if st := w.RegisterAVS(spec); st.Ack {
 				extraAVS = append(extraAVS, owner.Eth.String())
+				avsSpecs[owner.Eth.String()] = spec
 			}
 		}
 	}
@@ -483,7 +487,21 @@ func (w *World) RunLedger(o LedgerOpts) {
 		case wt(40): // associate
 			s := w.pickStaker([]uint64{101, 1616}[r.Intn(2)], false)
 			if s != nil {
-				w.Associate(s, w.pickOper(r.Intn(8) != 0))
+				op := w.pickOper(r.Intn(8) != 0)
+				if r.Intn(3) == 0 && op.Registered && s != w.Stakers[0] {
+					// the staker first delegates every asset of its chain to that operator (an association then has
+					// several delegations to credit)
+					for _, a := range w.Assets {
+						if a.Lz != s.Lz || a.Native {
+							continue
+						}
+						amt := w.depositAmount(a, false)
+						if st := w.Deposit(s, a, amt); st.Ack {
+							w.Delegate(s, a, op, amt.QuoRaw(int64(1+r.Intn(3))))
+						}
+					}
+				}
+				w.Associate(s, op)
 			}
 		case wt(25): // dissociate
 			s := w.pickStaker([]uint64{101, 1616}[r.Intn(2)], false)
@@ -531,7 +549,22 @@ func (w *World) RunLedger(o LedgerOpts) {
 				op.NextKey++
 			}
 			w.fund(op.Acct)
-			w.SetKey(op, w.AVSAddr, key)
+			kst := w.SetKey(op, w.AVSAddr, key)
+			if kst.Ack && r.Intn(3) == 0 {
+				// a second replacement right away (same epoch), then somebody undelegates from that operator
+				k2 := sim.NewConsKey(fmt.Sprintf("%s-k%d", op.Acct.Name, op.NextKey))
+				op.NextKey++
+				w.SetKey(op, w.AVSAddr, k2)
+				for _, e := range w.liveDelegations() {
+					if e.o == op && !(e.s == w.Stakers[0] && e.o == w.Opers[0]) {
+						pos := Position(w.Last.Ledger, e.s.ID, e.a.ID, e.o.Addr())
+						if pos.IsPositive() {
+							w.Undelegate(e.s, e.a, e.o, w.amount(pos, false))
+							break
+						}
+					}
+				}
+			}
 		case wt(wSlash): // slash (keeper step)
 			slashN++
 			w.randomSlash(slashN)
@@ -653,6 +686,21 @@ func (w *World) RunLedger(o LedgerOpts) {
 				continue
 			}
 			avs := extraAVS[r.Intn(len(extraAVS))]
+			if r.Intn(6) == 0 {
+				// the AVS changes its asset list: to nothing, and back
+				spec := avsSpecs[avs]
+				assets := []string{}
+				if avsEmptied[avs] {
+					assets = spec.Assets
+				}
+				st := w.CallFrom("avs_update_assets", spec.Owner, "avs", sim.AddrAVS, "updateAVS", map[string]string{"avs": avs, "assets": fmt.Sprint(len(assets))},
+					spec.Owner.Eth, spec.Name, uint64(1), spec.TaskAddr, common.HexToAddress("0x0000000000000000000000000000000000000902"), common.HexToAddress("0x0000000000000000000000000000000000000903"),
+					[]string{spec.Owner.Acc.String()}, assets, spec.Unbonding, spec.MinSelf, spec.EpochID, []uint64{1, 1, 5, 5})
+				if st.Ack {
+					avsEmptied[avs] = !avsEmptied[avs]
+				}
+				continue
+			}
 			op := w.pickOper(true)
 			w.fund(op.Acct)
 			if r.Intn(4) == 0 {
